@@ -118,6 +118,10 @@ func vVp9Pkt(p *codecs.VP9Packet) Val {
 		Bool(p.G), I(int64(p.NG)), u16s(p.Width), u16s(p.Height), u8s(p.PGTID), pgu, pgp, B(nn(p.Payload)))
 }
 
+func vp9CallTok(mtu int, f vp9Frame) Tok {
+	return TList{TI(int64(mtu)), TBytes(f.bytes), TI(b2i(f.key)), TI(b2i(f.showExisting)), TI(int64(f.width)), TI(int64(f.height))}
+}
+
 func runVp9History(flexible bool, init uint16, calls []Tok, frames []vp9Frame) Outcome {
 	var o Outcome
 	p := &codecs.VP9Payloader{FlexibleMode: flexible, InitialPictureIDFn: func() uint16 { return init }}
@@ -295,6 +299,17 @@ func init() {
 		switch op {
 		case 1201:
 			return runVp9History(tokInt(toks[0]) != 0, uint16(tokInt(toks[1])), tokList(toks[2]), nil)
+		case 1204:
+			// flexible init [[mtu xframe key showExisting width height]...]: the frame description travels
+			// with the case, so the oracle (losslessness, B/E, P, picture id, scalability structure) is here
+			var frames []vp9Frame
+			calls := TList{}
+			for _, t := range tokList(toks[2]) {
+				l := tokList(t)
+				calls = append(calls, TList{l[0], l[1]})
+				frames = append(frames, vp9Frame{key: tokInt(l[2]) != 0, showExisting: tokInt(l[3]) != 0, width: int(tokInt(l[4])), height: int(tokInt(l[5])), bytes: tokBytes(l[1])})
+			}
+			return runVp9History(tokInt(toks[0]) != 0, uint16(tokInt(toks[1])), calls, frames)
 		case 1202:
 			var ps [][]byte
 			for _, t := range tokList(toks[0]) {
@@ -338,12 +353,7 @@ func init() {
 				f := genVp9Frame(c)
 				f.bytes = append(f.bytes, c.Bytes(cfg[2])...)
 				f2 := genVp9Frame(c)
-				calls := TList{TList{TI(int64(cfg[1])), TBytes(f.bytes)}, TList{TI(20), TBytes(f2.bytes)}}
-				o := runVp9History(cfg[0] == 1, 0x7FFF, calls, []vp9Frame{f, f2})
-				if o.Fail != "" {
-					pendingFailures = append(pendingFailures, pendingFailure{CaseLine(1201, TI(int64(cfg[0])), TI(0x7FFF), calls), o.Fail, ""})
-				}
-				emit(1201, TI(int64(cfg[0])), TI(0x7FFF), calls)
+				emit(1204, TI(int64(cfg[0])), TI(0x7FFF), TList{vp9CallTok(cfg[1], f), vp9CallTok(20, f2)})
 			}
 			for i := 0; i < n; i++ {
 				c := r.Fork(uint64(i))
@@ -356,15 +366,10 @@ func init() {
 					for k, kn := 0, 1+c.Intn(4); k < kn; k++ {
 						f := genVp9Frame(c)
 						mtu := c.Pick(4, 11, 12, 13, 14, 20, 1200, 12+c.Intn(40), c.Intn(12))
-						calls = append(calls, TList{TI(int64(mtu)), TBytes(f.bytes)})
+						calls = append(calls, vp9CallTok(mtu, f))
 						frames = append(frames, f)
 					}
-					o := runVp9History(flexible, init, calls, frames)
-					line := CaseLine(1201, TI(b2i(flexible)), TI(int64(init)), calls)
-					if o.Fail != "" {
-						pendingFailures = append(pendingFailures, pendingFailure{line, o.Fail, ""})
-					}
-					emit(1201, TI(b2i(flexible)), TI(int64(init)), calls)
+					emit(1204, TI(b2i(flexible)), TI(int64(init)), calls)
 				case 2:
 					ps := TList{}
 					for k, kn := 0, 1+c.Intn(4); k < kn; k++ {
